@@ -18,7 +18,8 @@ CHECKS = {
    technique="Lean 4 proof over a hand-written model + differential correspondence check (impl / model / brute-force spec)", ref="5 (C01)"),
  "C02": dict(
    text="Lean theorems about the term index and both search implementations (Props/C02.lean) audited on every run. " + TIE_LOC +
-        "Histories of AddFact/RemFact/GetFact/SearchFacts over small id spaces under both states; searches compared with the brute-force specification and indexed with linear.",
+        "Histories of AddFact/RemFact/GetFact/SearchFacts over small id spaces under both states, with reloads, facts written by rule actions (Env.AddFact: Go-typed values as the Javascript runtime exports them), "
+        "dependencies on absent ids and patterns the matcher rejects; searches compared with the brute-force specification and indexed with linear. The Go types the term extractor knows are regenerated from the source (term_extractor_types).",
    note=NOTE_LOC, technique="Lean 4 proof over a hand-written model + differential correspondence check (impl / model / brute-force spec / indexed vs linear)", ref="5 (C02)"),
  "C06": dict(
    text="Lean theorems (Props/C06.lean) about the state model: storage mirrors memory after every operation of every history, reload reproduces the facts, acknowledged adds/removes are in storage. " + TIE_LOC +
@@ -29,8 +30,10 @@ CHECKS = {
  "C07": dict(
    text="Lean theorems (Props/C07.lean) about prepareFact/checkExpiration: the expiry instant is fixed at write, an item is observable iff now < expires, no expiry never expires, already expired is rejected. " + TIE_LOC +
         "Facts and rules written with every expiry encoding (numeric, RFC3339, ttl number, ttl duration) observed before and after the instant (timed histories sleep across it) with reloads in between, both states; "
-        "the model receives the clock the harness recorded around each call.",
-   note=NOTE_LOC + " Wall clock granularity 1 s: histories in which a call ran at an expiry instant are skipped and counted.",
+        "the model receives the clock the harness recorded around each call. Regenerated from the source: the comparison of notAfter, where each state method reads the clock relative to its lock "
+        "(clock_read_under_lock), the Go types setExpires knows (expiry_types). Reads that wait for the state lock across an expiry instant (c07.lockwait, 8 read paths x 2 states), items looked at by id only "
+        "after the instant, sub-second ttl strings against floor(now + d) with millisecond clock readings.",
+   note=NOTE_LOC + " Wall clock granularity 1 s: histories in which a call ran at an expiry instant are skipped and counted. The lock-wait and sub-second checks are direct statements on the real code (runtime behaviour, observed not proved).",
    technique="Lean 4 proof over a hand-written model (comparison regenerated from the Go source) + differential correspondence check with recorded clocks", ref="5 (C07)"),
  "C08": dict(
    text="Lean theorems (Props/C08.lean) about the cascade of both state models: termination, exactness w.r.t. the deleteWith closure, durability. " + TIE_LOC +
